@@ -209,7 +209,7 @@ def _check_sorted_iterator(ctx):
             ok = True
         elif wpt[0] == "elem" and wpt[1] == merged:
             ok = True
-        elif merged[0] == "comp" and show(merged[2], 400) == show(wpt, 400):
+        elif merged[0] == "comp" and (merged[2]) == (wpt):
             ok = True
     ctx.check(ok, "C09a-merge-written-list", f,
               "the paths merged are exactly the paths the chunk tasks write",
